@@ -202,3 +202,33 @@ def expand_local(e: ast.AST, defs: dict[str, list[ast.AST]], depth: int = 4) -> 
                 out.extend(expand_local(d, defs, depth - 1))
         return out
     return [e]
+
+
+class _Subst(ast.NodeTransformer):
+    def __init__(self, defs, depth):
+        self.defs = defs
+        self.depth = depth
+
+    def visit_Name(self, node):
+        if isinstance(node.ctx, ast.Load) and node.id in self.defs and len(self.defs[node.id]) == 1 and self.depth > 0:
+            d = self.defs[node.id][0]
+            if not isinstance(d, ast.AugAssign):
+                import copy
+
+                return _Subst(self.defs, self.depth - 1).visit(copy.deepcopy(d))
+        return node
+
+
+def canon(e: ast.AST, defs: dict[str, list[ast.AST]] | None = None, depth: int = 4) -> str:
+    """Normalised text of e with single-definition locals substituted by their definitions, no spaces."""
+    import copy
+
+    if e is None:
+        return ""
+    t = copy.deepcopy(e)
+    if defs:
+        t = _Subst(defs, depth).visit(t)
+    try:
+        return ast.unparse(t).replace(" ", "")
+    except Exception:  # noqa: BLE001
+        return norm(e).replace(" ", "")
